@@ -14,15 +14,19 @@ LIST = [
   'FC5/FC6/FC23 read the cells back after writing them: when the datastore fails in that read-back the request is answered with exception 04 although the cells were already changed'),
  ('KF-C07-MBAP-LEN', 'C07', {'class': 'unjustified-delivery', 'framing': 'tcp', 'why': 'mbap-length-inconsistent'},
   'TCP: a frame whose MBAP length disagrees with the length the PDU\'s function code and count fields imply (over-long or short PDU) is delivered; decoders ignore trailing bytes / read what is there'),
+ ('KF-C07-ASCII-NONHEX', 'C07', {'framing': 'ascii', 'why': 'ascii-non-hex-accepted'},
+  'ASCII framer parses the unit and LRC fields with int(.., 16), which tolerates blanks, tabs and underscores: a frame with such a character in those fields passes the check'),
  ('KF-C08-FOREIGN-FC', 'C08', {'class': 'foreign-reply-returned', 'mismatch': 'fc'},
   'sync client returns a reply whose function code does not answer the request (any frame read during the call is stored under the request\'s tid)'),
  ('KF-C08-FOREIGN-TID', 'C08', {'class': 'foreign-reply-returned', 'mismatch': 'tid'},
   'sync client returns a reply carrying another transaction id (stale reply of an earlier transaction): reply tid is never compared with the request tid'),
  ('KF-C08-UNIT-WILDCARD', 'C08', {'class': 'foreign-reply-returned', 'mismatch': 'unit', 'request_unit_wildcard': True},
   'requests to unit 0 or 255 accept a reply from any unit (_validate_unit_id treats 0/255 in the expected units as a wildcard)'),
+ ('KF-C08-UDP-TRUNCATED', 'C08', {'class': 'foreign-reply-returned', 'kind': 'udp', 'mismatch': 'no-frame'},
+  'UDP client reads a reply datagram in pieces (recvfrom(8), then the rest): the first read truncates the datagram, so what is decoded after a retry / foreign frame is not a frame that was received'),
  ('KF-C08-TLS-REPLY', 'C08', {'class': 'good-reply-rejected', 'kind': 'tls'},
   'TLS client cannot receive exception replies or replies to requests without a size prediction: _recv waits for the predicted byte count / reads byte-wise until the timeout and returns an error'),
- ('KF-C12-OVERLONG-PDU', 'C12', {'class': 'unjustified-write', 'overlong_pdu': True},
+ ('KF-C12-OVERLONG-PDU', 'C12', {'class': 'overlong-pdu-executed'},
   'a write request followed by extra bytes inside a frame that is otherwise valid (over-long PDU) is executed: decoders ignore trailing bytes'),
  ('KF-C13-LEFTOVER-INPUT', 'C13', {'class': 'no-recovery', 'leftover_input': True},
   'client never discards unconsumed input (stale, duplicate, late replies, garbage) before a new transaction on TCP/UDP (serial flushes only what has already arrived): the next transaction reads the leftover and fails or returns a foreign reply'),
@@ -30,9 +34,11 @@ LIST = [
   'ModbusUdpClient defaults to timeout=None: a lost reply blocks recvfrom for ever'),
  ('KF-C13-UDP-RETRY', 'C13', {'class': 'retry-not-honoured', 'kind': 'udp'},
   'UDP client: a retry switches to partial reads (full=False), recvfrom(8) truncates the reply datagram and the retried transaction times out, so retry_on_empty / retry_on_invalid never deliver the reply'),
+ ('KF-C13-FRAMER-EXCEPTION', 'C13', {'class': 'raised', 'exc': ['Error', 'error', 'IndexError', 'KeyError', 'TypeError', 'AttributeError']},
+  'an exception other than ModbusIOException raised by the framer/decoder while processing a received reply (binascii.Error from a2b_hex on odd-length ASCII, struct.error / IndexError on a truncated PDU) escapes execute() instead of being returned as an error object'),
  ('KF-C14-TLS-EXCEPTION', 'C14', {'framing': 'tls', 'reply': 'exception'},
   'TLS framing: the client waits for the predicted normal-reply length, so an exception reply (2 bytes) costs the full timeout and is then dropped'),
- ('KF-C15-CONNECT-RACE', 'C15', {'preconnected': False, 'kind': 'tcp'},
+ ('KF-C15-CONNECT-RACE', 'C15', {'preconnected': False},
   'BaseModbusClient.execute() calls connect() outside the transaction lock: two threads that both find the client unconnected each open a connection and the second assignment replaces the socket the first thread is transacting on, whose reply is lost'),
  ('KF-C16-FIFO-PAIRING', 'C16', {'variant': 'serial', 'context': ['stray-reply-while-pending', 'stray-reply-while-pending+lose']},
   'serial (FIFO) Twisted client: an unsolicited or duplicate reply that arrives while a request is pending is handed to the oldest pending deferred (nothing to match on), shifting every later pairing'),
